@@ -136,6 +136,12 @@ func txnProgram(j int, tx TxnSpec, uniq int) []string {
 			s = append(s, fmt.Sprintf("ECHO '@Q %d.%d';", j, 1), fmt.Sprintf("WITH w AS (SELECT id, n FROM %s) SELECT x.id, w.n FROM %s x JOIN w ON x.id = w.id FOR UPDATE;", t, t))
 		} else if tx.Form == 3 {
 			s = append(s, fmt.Sprintf("ECHO '@Q %d.%d';", j, 1), fmt.Sprintf("SELECT x.id, q.n FROM (SELECT id, n FROM %s) q JOIN %s x ON x.id = q.id FOR UPDATE;", t, t))
+		} else if tx.Form == 4 {
+			// the table named by a file: URL (a local file all the same)
+			s = append(s, fmt.Sprintf("ECHO '@Q %d.%d';", j, 1), fmt.Sprintf("SELECT id, n FROM file:./%s.csv FOR UPDATE;", t))
+		} else if tx.Form == 5 {
+			// ... or only on the right-hand side of a set operator
+			s = append(s, fmt.Sprintf("ECHO '@Q %d.%d';", j, 1), fmt.Sprintf("SELECT id, n FROM %s WHERE id < 0 UNION ALL SELECT id, n FROM %s FOR UPDATE;", t, t))
 		} else {
 			s = append(s, sel(1, " FOR UPDATE")...)
 		}
@@ -269,7 +275,7 @@ func genCounterScenario(prop string, seed uint64, tier string, maxProcs int) (*S
 			if tx.Kind == "forupd" && r.Bool(0.4) {
 				tx.Form = 1
 				if prop == "C09" {
-					tx.Form = r.Pick(1, 1, 2, 3)
+					tx.Form = r.Pick(1, 1, 2, 3, 4, 5)
 				}
 			}
 			if tx.Kind == "forupd" && r.Bool(0.35) {
